@@ -170,7 +170,7 @@ pub fn record(seed: u64, tier: &str, out: &str) {
         t.ev(json!({"ev": "arith", "op": "neg", "x": dec80(&x), "y": dec80(&x), "r": dec80(&(-x))}));
     }
     // random bit patterns and chains of 2-4 operations (intermediate results use all 64 significand bits)
-    let n = if thorough { 40_000 } else { 1_200 };
+    let n = if thorough { 24_000 } else { 1_200 };
     for _ in 0..n {
         let rb = |rng: &mut Rng| -> f64 {
             match rng.below(5) {
